@@ -5,6 +5,8 @@
 import Qfx.Lemmas.CodecDictSegs
 import Qfx.Lemmas.CodecDictStack
 import Qfx.Lemmas.CodecDictNest
+import Qfx.Lemmas.CodecDictItems
+import Qfx.Lemmas.CodecRoundDict
 namespace Qfx
 open Qfx.Spec
 
@@ -203,7 +205,9 @@ theorem ex_side (t : Tag) (h : 448 = t ∨ 447 = t ∨ 802 = t ∨ 523 = t ∨ 8
     exact ⟨by simp [isHeaderField, exD3, Tag.isHeader, staticHeaderTags], by simp [isTrailerField, exD3, Tag.isTrailer, staticTrailerTags],
       exNG3 _ (by decide)⟩
 
-theorem exTreeOK : TreeOK exD3 exC3 := by
+theorem exTreeOK_of (d : Dicts)
+    (ex_side : ∀ t : Tag, (448 = t ∨ 447 = t ∨ 802 = t ∨ 523 = t ∨ 803 = t ∨ 2376 = t ∨ 2377 = t) →
+      isHeaderField d t = false ∧ isTrailerField d t = false ∧ NoGroupTag d t) : TreeOK d exC3 := by
   intro C1 h1 t ht
   have hC1 : C1 = exC3 ∨ C1 = exCN3 ∨ C1 = exCNN := by
     rcases h1 with e | e
@@ -229,6 +233,8 @@ theorem exTreeOK : TreeOK exD3 exC3 := by
     refine ⟨ex_side t (by simp [ht']), ?_⟩
     intro C2 hb
     exact absurd hb (ex_below_CNN _)
+
+theorem exTreeOK : TreeOK exD3 exC3 := exTreeOK_of exD3 ex_side
 
 /-- the member sequence of `exWalkN`, this time as a well-nested sequence -/
 theorem exGroupWalk : GroupWalk exC3
@@ -259,6 +265,128 @@ theorem exSegNested : SegNested exD3 exFs3
   z := exSegOKN.z
   zh := exSegOKN.zh
   zt := exSegOKN.zt
+
+
+
+/-! ### a whole message as an `ItemsN` sequence: plain field, three-level group 453, DIRECTLY the flat group 78, DIRECTLY a user-defined
+    trailer field (5050, known to the transport dictionary only), then CheckSum -/
+
+def ex78C : List DNode := [.mk 79 [], .mk 80 []]
+def exFs5 : List DNode := [.mk 11 [], .mk 453 exC3, .mk 78 ex78C, .mk 58 []]
+/-- transport dictionary with the user-defined header tag 10030 and trailer tag 5050; application dictionary with two groups -/
+def exD5 : Dicts := { transport := some ([10030], [5050]), app := some [([68], exFs5)] }
+
+theorem exApp5 : AppMsg exD5 [68] exFs5 := ⟨_, rfl, by simp [alFindB]⟩
+
+theorem exNG5 (t : Tag) (h1 : t ≠ 453) (h2 : t ≠ 78) : NoGroupTag exD5 t := by
+  intro msgs hm p hp
+  simp only [exD5, Option.some.injEq] at hm; subst hm
+  simp only [List.mem_singleton] at hp; subst hp
+  have h1' : ¬ (453 : Int) = t := fun e => h1 e.symm
+  have h2' : ¬ (78 : Int) = t := fun e => h2 e.symm
+  simp only [pathWalk, dfind, DNode.tag, DNode.children, exFs5, h1', h2', if_false]
+  by_cases h58 : (58 : Int) = t
+  · simp [h58]
+  · by_cases h11 : (11 : Int) = t
+    · simp [h58, h11]
+    · simp [h58, h11]
+
+theorem ex_side5 (t : Tag) (h : 448 = t ∨ 447 = t ∨ 802 = t ∨ 523 = t ∨ 803 = t ∨ 2376 = t ∨ 2377 = t) :
+    isHeaderField exD5 t = false ∧ isTrailerField exD5 t = false ∧ NoGroupTag exD5 t := by
+  rcases h with e | e | e | e | e | e | e <;> subst e <;>
+    exact ⟨by simp [isHeaderField, exD5, Tag.isHeader, staticHeaderTags], by simp [isTrailerField, exD5, Tag.isTrailer, staticTrailerTags],
+      exNG5 _ (by decide) (by decide)⟩
+
+theorem ex_groupOf_78 (t : Tag) (c : List DNode) (h : groupOf ex78C t = some c) : False := by
+  simp only [groupOf, ex78C, dfind, DNode.tag] at h
+  by_cases h1 : (80 : Int) = t
+  · subst h1; simp [DNode.children] at h
+  · by_cases h2 : (79 : Int) = t
+    · subst h2; simp [DNode.children] at h
+    · simp [h1, h2] at h
+
+theorem ex_below_78 (C : List DNode) (h : Below ex78C C) : False := by
+  cases h with
+  | child hg => exact ex_groupOf_78 _ _ hg
+  | step hg _ => exact ex_groupOf_78 _ _ hg
+
+theorem exTreeOK78 : TreeOK exD5 ex78C := by
+  intro C1 h1 t ht
+  rcases h1 with e | e
+  · subst e
+    have ht' : 79 = t ∨ 80 = t := by
+      simp only [isGroupMember, ex78C, List.any_cons, List.any_nil, DNode.tag, Bool.or_false, Bool.or_eq_true] at ht
+      rcases ht with h | h
+      · exact Or.inl (of_decide_eq_true h)
+      · exact Or.inr (of_decide_eq_true h)
+    refine ⟨?_, fun C2 hb => absurd hb (ex_below_78 _)⟩
+    rcases ht' with e | e <;> subst e <;>
+      exact ⟨by simp [isHeaderField, exD5, Tag.isHeader, staticHeaderTags], by simp [isTrailerField, exD5, Tag.isTrailer, staticTrailerTags],
+        exNG5 _ (by decide) (by decide)⟩
+  · exact absurd e (ex_below_78 _)
+
+theorem exNotListed3 (t : Tag) (h : ∀ x : Tag, (448 = x ∨ 447 = x ∨ 802 = x ∨ 523 = x ∨ 803 = x ∨ 2376 = x ∨ 2377 = x) → x ≠ t) :
+    NotListed exC3 t := by
+  have hne : ∀ C, (C = exC3 ∨ C = exCN3 ∨ C = exCNN) → isGroupMember t C = false := by
+    intro C hC
+    cases hm : isGroupMember t C with
+    | false => rfl
+    | true =>
+      exfalso
+      rcases hC with e | e | e <;> subst e
+      · rcases ex_mem_C3 t hm with e | e | e <;> exact h t (by simp [e]) rfl
+      · rcases ex_mem_CN3 t hm with e | e | e <;> exact h t (by simp [e]) rfl
+      · exact h t (by simp [ex_mem_CNN t hm]) rfl
+  refine ⟨hne _ (Or.inl rfl), fun C' hb => ?_⟩
+  rcases ex_below_C3 _ hb with e | e
+  · exact hne _ (Or.inr (Or.inl e))
+  · exact hne _ (Or.inr (Or.inr e))
+
+theorem exItemsN : ItemsN exD5 exFs5 none
+    [.plain (TagValue.init 11 [97]),
+     .group (TagValue.init 453 [50])
+       [TagValue.init 448 [97], TagValue.init 802 [49], TagValue.init 523 [120], TagValue.init 2376 [49], TagValue.init 2377 [113],
+        TagValue.init 448 [98], TagValue.init 802 [49], TagValue.init 523 [121]],
+     .group (TagValue.init 78 [49]) [TagValue.init 79 [120]],
+     .plain (TagValue.init 5050 [72])] none := by
+  refine .plainMain ⟨exWire _ _ (by simp [SOH]) (by simp [inInt64]), by decide, by decide, by decide, by decide, exNG5 11 (by decide) (by decide)⟩ ?_
+  refine .groupMain (C := exC3) (exWire _ _ (by simp [SOH]) (by simp [inInt64]))
+    (by simp [isHeaderField, exD5, Tag.isHeader, staticHeaderTags, TagValue.init])
+    (by simp [isTrailerField, exD5, Tag.isTrailer, staticTrailerTags, TagValue.init]) (by rfl) exGroupWalk (exTreeOK_of exD5 ex_side5) ?_
+  refine .groupAdj (C := ex78C) (exWire _ _ (by simp [SOH]) (by simp [inInt64]))
+    (by simp [isHeaderField, exD5, Tag.isHeader, staticHeaderTags, TagValue.init])
+    (by simp [isTrailerField, exD5, Tag.isTrailer, staticTrailerTags, TagValue.init])
+    (exNotListed3 _ (by intro x hx; rcases hx with e | e | e | e | e | e | e <;> subst e <;> decide)) (by rfl)
+    (.leaf (exWire _ _ (by simp [SOH]) (by simp [inInt64])) (by rfl) (by rfl) (.nil _)) exTreeOK78 ?_
+  refine .plainExit (exWire _ _ (by simp [SOH]) (by simp [inInt64])) (by decide) (by decide) (by decide) (by decide)
+    ⟨by rfl, fun C' hb => absurd hb (ex_below_78 _)⟩
+    (Or.inr (Or.inl (by simp [isTrailerField, exD5, TagValue.init]))) (.nil _)
+
+
+/-! ### witnesses for the hypotheses of the end-to-end round trip (`C13_roundtrip_dict`): template ↔ dictionary, conforming API entries -/
+
+/-- the template of the three-level example dictionary tree `exC3` -/
+def exTmpl3 : List Item := [.elem 448, .elem 447, .group 802 [.elem 523, .elem 803, .group 2376 [.elem 2377]]]
+
+theorem exTmplDict : TmplDict exTmpl3 exC3 :=
+  .elem (by rfl) (by rfl) (.elem (by rfl) (by rfl) (.group (CN := exCN3) (by rfl)
+    (.elem (by rfl) (by rfl) (.elem (by rfl) (by rfl) (.group (CN := exCNN) (by rfl) (.elem (by rfl) (by rfl) (.nil _)) (.nil _))))
+    (.nil _)))
+
+/-- two entries set through the API, the first with a nested group that has a nested group -/
+def exEntries : List (List GFld) :=
+  [[.fld 448 [97], .grp 802 [.elem 523, .elem 803, .group 2376 [.elem 2377]] [[.fld 523 [120], .grp 2376 [.elem 2377] [[.fld 2377 [113]]]]]],
+   [.fld 447 [68], .fld 448 [98]]]
+
+theorem exEntriesOK : entriesOK exTmpl3 exEntries = true := by
+  simp [entriesOK, entryOK, tmplEq, exTmpl3, exEntries, findItem, Item.tag, GFld.tag]
+
+theorem exSmall : SmallEs exEntries :=
+  .cons (.fld (.grp (by decide) (.cons (.fld (.grp (by decide) (.cons (.fld .nil) .nil) .nil)) .nil) .nil))
+    (.cons (.fld (.fld .nil)) .nil)
+
+theorem exTmplNodup : (453 :: allTmplTags exTmpl3).Nodup := by
+  simp [allTmplTags, exTmpl3]
 
 
 end Qfx
